@@ -583,7 +583,7 @@ func genCoseRead(r *Runner, prop string) {
 		}
 	}
 	// unsupported leaf keys
-	for _, k := range []string{"rsa1024-0", "rsa2056-0", "rsa2560-0", "rsa3200-0", "rsa5120-0", "ec224-0", "ed-0"} {
+	for _, k := range []string{"rsa1024-0", "rsa2056-0", "rsa2560-0", "rsa3200-0", "rsa5120-0", "rsa2000-0", "rsa2040-0", "rsa3064-0", "rsa4088-0", "rsa4104-0", "ec224-0", "ed-0"} {
 		jobs = append(jobs, coseJob{label: "unsupported-leaf-key", keyID: k, n: 2, scheme: "notary.x509"})
 	}
 	for _, m := range muts {
@@ -629,7 +629,7 @@ func genCoseRead(r *Runner, prop string) {
 // C02: the complete matrix (leaf key kind) x (declared algorithm) x both formats
 func genC02(r *Runner) {
 	// the six approved keys, keys below the table, and RSA sizes between and above the table's rows (2056 = a 2049..2056-bit modulus)
-	keys := []string{"rsa1024-0", "rsa2048-0", "rsa2056-0", "rsa2560-0", "rsa3072-0", "rsa3200-0", "rsa4096-0", "rsa5120-0", "ec224-0", "ec256-0", "ec384-0", "ec521-0", "ed-0"}
+	keys := []string{"rsa1024-0", "rsa2000-0", "rsa2040-0", "rsa3064-0", "rsa4088-0", "rsa4104-0", "rsa2048-0", "rsa2056-0", "rsa2560-0", "rsa3072-0", "rsa3200-0", "rsa4096-0", "rsa5120-0", "ec224-0", "ec256-0", "ec384-0", "ec521-0", "ed-0"}
 	var jj []jwsJob
 	var cj []coseJob
 	jm := jwsMutations()
